@@ -11,6 +11,7 @@ import Dhcp.Driver.Misc
 import Dhcp.Driver.Lease
 import Dhcp.Driver.C03x
 import Dhcp.Driver.Lexer
+import Dhcp.Driver.V6Acc
 /-
   Line protocol driver: one operation per input line, one canonical line out.
   `lake build dhcp-driver` compiles it; the Go harness pipes the same lines
@@ -21,7 +22,7 @@ import Dhcp.Driver.Lexer
 open Dhcp.Driver Dhcp.Driver.Cli Dhcp.Driver.Lse
 
 def families : List (String → List String → Option String) :=
-  [stepV4, stepLabel, stepRaw, stepV4Acc, stepV4Build, stepV6, stepV6Build, stepClient, stepServer, stepMisc, stepLease, stepC03x, stepLexer]
+  [stepV4, stepLabel, stepRaw, stepV4Acc, stepV4Build, stepV6, stepV6Build, stepClient, stepServer, stepMisc, stepLease, stepC03x, stepLexer, stepV6Acc]
 
 def step (line : String) : String :=
   match (line.trimAscii.toString.splitOn " ").filter (· ≠ "") with
